@@ -313,11 +313,20 @@ impl<'t, 'd> G<'t, 'd> {
 				let _ = writeln!(text, "impl Gen for {name} {{\n\tfn gen(t: &mut Tape, d: usize) -> Self {{\n\t\tSelf(<[u8; {n}] as Gen>::gen(t, d))\n\t}}\n}}\n");
 				kind = AK::Named(format!("{}.{name}", self.ns(&module)));
 			}
-			1 => {
+			1 | 2 => {
 				// newtype with a logical type attribute
-				let _ = writeln!(text, "pub(crate) struct {name}(#[avro_schema(logical_type = \"TimestampMillis\")] pub i64);");
-				let _ = writeln!(text, "impl Gen for {name} {{\n\tfn gen(t: &mut Tape, d: usize) -> Self {{\n\t\tSelf(<i64 as Gen>::gen(t, d))\n\t}}\n}}\n");
-				kind = AK::Long;
+				// (a long with timestamp-millis, or a decimal over bytes: the latter's schema node must not
+				// leak to plain byte vectors of the same family)
+				if self.t.below(3) == 0 {
+					let _ = writeln!(text, "pub(crate) struct {name}(#[avro_schema(logical_type = \"TimestampMillis\")] pub i64);");
+					let _ = writeln!(text, "impl Gen for {name} {{\n\tfn gen(t: &mut Tape, d: usize) -> Self {{\n\t\tSelf(<i64 as Gen>::gen(t, d))\n\t}}\n}}\n");
+					kind = AK::Long;
+				} else {
+					let _ = writeln!(text, "pub(crate) struct {name}(#[avro_schema(scale = 2, precision = 20)] pub rust_decimal::Decimal);");
+					let _ = writeln!(text, "impl Gen for {name} {{\n\tfn gen(t: &mut Tape, d: usize) -> Self {{\n\t\tSelf(<rust_decimal::Decimal as Gen>::gen(t, d))\n\t}}\n}}\n");
+					kind = AK::Bytes;
+					features.push("newtype-decimal");
+				}
 				features.push("logical");
 			}
 			_ => {
@@ -341,8 +350,23 @@ impl<'t, 'd> G<'t, 'd> {
 				}
 			}
 		}
+		// a record that holds a logical-type newtype next to a plain field of the newtype's inner type
+		// (the two must get different schema nodes: the annotation belongs to the newtype only)
+		let companion = if features.contains(&"logical") && (kind == AK::Long || kind == AK::Bytes) && text.contains("#[avro_schema(") {
+			let (plain_attr, plain_ty) = if kind == AK::Bytes { ("\t#[serde(with = \"serde_bytes\")]\n", "Vec<u8>") } else { ("", "i64") };
+			let cname = format!("{name}Mix");
+			text.push_str(Self::derive_line());
+			let _ = writeln!(text, "pub(crate) struct {cname} {{\n\tpub a: {name},\n{plain_attr}\tpub b: {plain_ty},\n\tpub c: Option<{name}>,\n\tpub e: Vec<{name}>,\n}}");
+			let _ = writeln!(text, "impl Gen for {cname} {{\n\tfn gen(t: &mut Tape, d: usize) -> Self {{\n\t\tSelf {{ a: <{name} as Gen>::gen(t, d + 1), b: <{plain_ty} as Gen>::gen(t, d + 1), c: <Option<{name}> as Gen>::gen(t, d + 1), e: <Vec<{name}> as Gen>::gen(t, d + 1) }}\n\t}}\n}}\n");
+			Some((format!("{path}Mix"), format!("{}.{cname}", self.ns(&module))))
+		} else {
+			None
+		};
 		self.emit(&module, text);
 		self.defs.push(Def { path, kind, features, plain: true, has_lifetime: false });
+		if let Some((cpath, cfull)) = companion {
+			self.defs.push(Def { path: cpath, kind: AK::Named(cfull), features: vec!["logical", "contains-union", "newtype-logical-next-to-plain"], plain: true, has_lifetime: false });
+		}
 	}
 
 	fn gen_union_enum(&mut self, idx: usize) {
@@ -407,7 +431,7 @@ impl<'t, 'd> G<'t, 'd> {
 			// (a newtype over `i64` carrying the timestamp-millis attribute - directly or through further
 			// newtypes - is still "a long" for the one-branch-per-type rule, but its branch is named
 			// after the logical type)
-			let rename = if ft.logical && ft.kind == AK::Long && ft.text.starts_with("crate::") { "TimestampMillis".to_string() } else { ft.kind.branch_name() };
+			let rename = if ft.logical && ft.kind == AK::Long && ft.text.starts_with("crate::") { "TimestampMillis".to_string() } else if ft.logical && ft.kind == AK::Bytes && ft.text.starts_with("crate::") { "Decimal".to_string() } else { ft.kind.branch_name() };
 			let _ = writeln!(text, "\t#[serde(rename = \"{rename}\")]");
 			let attrs = ft.attrs.join(" ");
 			let _ = writeln!(text, "\tA{v}({attrs} {}),", ft.text);
